@@ -444,6 +444,30 @@ fn no_dead_names(j: &mut Judged, tr: &Trace, d: usize, from_t: u64, dead: &[Name
     }
 }
 
+/// Every scripted question (SRV / TXT / ANY on an instance name, A / ANY on a host name) about a name that daemon `d`
+/// holds must be answered by it, in the step that read the question, with a record of that name in the answer section.
+fn direct_questions_answered(j: &mut Judged, scn: &Scenario, tr: &Trace, d: usize, held: &[Name]) {
+    for (oi, o) in scn.ops.iter().enumerate() {
+        let Op::PeerSend { msg, .. } = &o.op else { continue };
+        if !msg.is_query() || msg.questions.len() != 1 {
+            continue;
+        }
+        let q = &msg.questions[0];
+        if q.ty == wire::T_PTR || !held.iter().any(|h| h.0 == q.name.0) {
+            continue;
+        }
+        let Some(t_op) = tr.op_times.get(oi).copied().flatten() else { continue };
+        let Some(rx) = tr.rx.iter().find(|r| r.d == d && r.step.is_some() && r.t_sent == t_op && matches!(r.src, Src::Peer(_)) && r.msg.as_ref().map(|m| m.is_query() && m.questions.first().map(|x| x.name.0 == q.name.0 && x.ty == q.ty).unwrap_or(false)).unwrap_or(false)) else { continue };
+        let st = rx.step.unwrap();
+        j.judgements += 1;
+        let answered = tr.tx.iter().any(|x| x.d == d && x.step == st && x.msg.as_ref().map(|m| m.is_response() && m.answers.iter().any(|r| r.name.eq_ci(&q.name) && (q.ty == wire::T_ANY || r.ty == q.ty))).unwrap_or(false));
+        if !answered {
+            j.fail("C08-R3", format!("the daemon d{} holds {:?} (announced after the rename) but the question {:?} {} read at t={} got no answer under that name", d, q.name, q.name, wire::ty_name(q.ty), rx.t_read.unwrap_or(0)));
+            return;
+        }
+    }
+}
+
 fn judge_duel(scn: &Scenario, tr: &Trace) -> Judged {
     let mut j = Judged::default();
     let regs: Vec<(usize, SvcSpec, u64)> = scn.ops.iter().enumerate().filter_map(|(oi, o)| if let Op::Register { d, svc } = &o.op { api_of_op(tr, oi).filter(|a| a.outcome == ApiOutcome::Ok).map(|a| (*d, svc.clone(), a.t)) } else { None }).collect();
@@ -582,6 +606,16 @@ fn judge_duel(scn: &Scenario, tr: &Trace) -> Judged {
         if !dead.is_empty() {
             // names given up are only dead for this daemon if it does not hold them through another service
             no_dead_names(&mut j, tr, *d, t_q, &dead, "after the rename");
+            // and the names it holds now are answered for
+            let mut held = vec![hi.clone()];
+            if let Some(hh) = &held_h[k] {
+                held.push(hh.clone());
+            }
+            // (not when another daemon ended up with the same name: R1 reports that)
+            let unique = (0..regs.len()).all(|o| o == k || held_i[o].as_ref().map(|n| !n.eq_ci(&hi)).unwrap_or(true));
+            if unique && j.violations.is_empty() {
+                direct_questions_answered(&mut j, scn, tr, *d, &held);
+            }
         }
     }
     j
@@ -720,6 +754,9 @@ fn judge_inject(scn: &Scenario, tr: &Trace) -> Judged {
                 let answered_a = tr.tx.iter().any(|x| x.d == d && x.t >= t_q && x.msg.as_ref().map(|m| m.is_response() && m.answers.iter().any(|r| r.name.0 == cur_h.0 && r.ty == wire::T_A)).unwrap_or(false));
                 if !answered_a {
                     j.fail("C08-R3", format!("the question {:?} A (the host name in use) from t={} was not answered with an A record of that name", cur_h, t_q));
+                }
+                if j.violations.is_empty() {
+                    direct_questions_answered(&mut j, scn, tr, d, &[cur_i.clone(), cur_h.clone()]);
                 }
             }
         }
